@@ -258,8 +258,33 @@ func c17One(r *Run, snap *slog.VerifRegistry, calls []regCall, kind string) {
 			for _, ev := range events {
 				if ev.Kind == "write" {
 					dests = append(dests, ev.W)
+					// the level's name inside a record reads back as the name (titles may hold quotes, backslashes, line breaks)
+					line := strings.TrimSuffix(string(ev.Payload), "\n")
+					got, ok := "", false
+					if pairs, err := tokenizeLogfmt(line); err == nil && !strings.Contains(line, "\n") {
+						for _, p := range pairs {
+							if p.Key == "level" {
+								got, ok = unq(p.Raw)
+							}
+						}
+					}
+					if !ok || got != l.String() {
+						fail("C17/level-name-in-record", fmt.Sprintf("level %d named %q: the logfmt record %q does not carry level=<that name, quoted>", cl.V, l.String(), string(ev.Payload)))
+					}
 				}
 			}
+			pr.SetJSONMode(true)
+			events = nil
+			pr.LogAttrs(nil, l, "c17 probe")
+			for _, ev := range events {
+				if ev.Kind == "write" {
+					var m map[string]any
+					if err := json.Unmarshal(ev.Payload, &m); err != nil || m["level"] != fixUTF8(l.String()) {
+						fail("C17/level-name-in-record", fmt.Sprintf("level %d named %q: the JSON record %q does not decode to that level name", cl.V, l.String(), string(ev.Payload)))
+					}
+				}
+			}
+			pr.SetColorMode(false)
 			events = nil
 			wantDest := 1
 			if cl.Err == 1 {
